@@ -150,6 +150,26 @@ struct XCompare : Engine {
               for (int cs = 0; cs < 2; cs++) { if (LIB(cJSON_Compare(n1, n2, cs)) || LIB(cJSON_Compare(n1, ok, cs)) || LIB(cJSON_Compare(ok, n2, cs))) V("invalid-compares-equal", "string node with NULL valuestring compares equal");
                   cJSON* a1 = LIB(cJSON_CreateArray()); cJSON* a2 = LIB(cJSON_CreateArray()); LIBV(cJSON_AddItemReferenceToArray(a1, n1)); LIBV(cJSON_AddItemReferenceToArray(a2, n2)); if (LIB(cJSON_Compare(a1, a2, cs))) V("invalid-compares-equal", "arrays holding string nodes with NULL valuestring compare equal"); LIBV(cJSON_Delete(a1)); LIBV(cJSON_Delete(a2)); }
               LIBV(cJSON_Delete(n1)); LIBV(cJSON_Delete(n2)); LIBV(cJSON_Delete(ok)); }
+            // nodes whose value was changed through the setters (shrunk / grown in place, re-set numbers and booleans), their duplicates and parsed equivalents:
+            // equality is decided by the current value alone
+            for (int lo : { 0, 1, 5, 40, 300 }) for (int ln : { 0, 1, 5, 40, 300 }) {
+                std::string so((size_t)lo, 'o'), sn((size_t)ln, 'n'); cJSON* m = LIB(cJSON_CreateString(so.c_str())); LIBV(cJSON_SetValuestring(m, sn.c_str())); cJSON* fresh = LIB(cJSON_CreateString(sn.c_str())); cJSON* old = LIB(cJSON_CreateString(so.c_str()));
+                cJSON* dup = LIB(cJSON_Duplicate(m, 1)); std::string txt = "\"" + sn + "\""; cJSON* parsed = LIB(cJSON_Parse(txt.c_str())); cJSON* arr_m = LIB(cJSON_CreateArray()); LIBV(cJSON_AddItemToArray(arr_m, LIB(cJSON_Duplicate(m, 1)))); cJSON* arr_f = LIB(cJSON_Parse(("[" + txt + "]").c_str()));
+                bool took = m->valuestring && sn == m->valuestring;   // SetValuestring may refuse (it does not for owned strings)
+                for (int cs = 0; cs < 2 && took; cs++) {
+                    if (!LIB(cJSON_Compare(m, fresh, cs)) || !LIB(cJSON_Compare(fresh, m, cs)) || !LIB(cJSON_Compare(dup, fresh, cs)) || !LIB(cJSON_Compare(parsed, m, cs)) || !LIB(cJSON_Compare(m, parsed, cs)) || !LIB(cJSON_Compare(arr_m, arr_f, cs)) || !LIB(cJSON_Compare(arr_f, arr_m, cs)))
+                        V("equal-values-compare-unequal", "a string set to a value of length " + std::to_string(ln) + " with cJSON_SetValuestring (was " + std::to_string(lo) + " long), or its duplicate, compares unequal to an equal created / parsed string");
+                    if (so != sn && (LIB(cJSON_Compare(m, old, cs)) || LIB(cJSON_Compare(old, dup, cs)))) V("different-values-compare-equal", "a string changed with cJSON_SetValuestring still compares equal to its old value");
+                }
+                for (cJSON* x : { m, fresh, old, dup, parsed, arr_m, arr_f }) if (x) LIBV(cJSON_Delete(x));
+            }
+            { static const double vals[] = { 0, 1, -1, 2.5, 2147483647.0, 2147483648.0, -2147483649.0, 1e300, 5e-324 };
+              for (double a : vals) for (double b : vals) { cJSON* m = LIB(cJSON_CreateNumber(a)); LIBV(cJSON_SetNumberHelper(m, b)); cJSON* fresh = LIB(cJSON_CreateNumber(b)); cJSON* old = LIB(cJSON_CreateNumber(a)); cJSON* dup = LIB(cJSON_Duplicate(m, 1));
+                  for (int cs = 0; cs < 2; cs++) { if (!LIB(cJSON_Compare(m, fresh, cs)) || !LIB(cJSON_Compare(fresh, dup, cs))) V("equal-values-compare-unequal", "a number re-set with cJSON_SetNumberHelper compares unequal to an equal created number"); if (a != b && LIB(cJSON_Compare(m, old, cs))) V("different-values-compare-equal", "a number re-set with cJSON_SetNumberHelper still compares equal to its old value"); }
+                  for (cJSON* x : { m, fresh, old, dup }) LIBV(cJSON_Delete(x)); }
+              cJSON* t = LIB(cJSON_CreateTrue()); cJSON* f = LIB(cJSON_CreateFalse()); cJSON* t2 = LIB(cJSON_CreateTrue()); cJSON_SetBoolValue(t, 0); cJSON_SetBoolValue(f, 1);
+              for (int cs = 0; cs < 2; cs++) if (!LIB(cJSON_Compare(f, t2, cs)) || LIB(cJSON_Compare(t, t2, cs))) V("equal-values-compare-unequal", "booleans changed with cJSON_SetBoolValue compare by their old value");
+              for (cJSON* x : { t, f, t2 }) LIBV(cJSON_Delete(x)); }
             // trees using every nesting level the parser accepts
             // (objects only 16 deep: cJSON_Compare visits every object member twice per level, i.e. 2^depth work for nested objects)
             for (int shape = 0; shape < 2; shape++) { std::string t; const int d = shape ? 16 : CJSON_NESTING_LIMIT; for (int i = 0; i < d; i++) t += shape ? "{\"k\":" : "["; t += "7"; for (int i = 0; i < d; i++) t += shape ? "}" : "]"; std::string t2 = t; t2[t2.find('7')] = '8';
